@@ -1,5 +1,6 @@
 import NeumannModel.Locks.Lemmas
 import NeumannModel.Locks.GraphLemmas
+import NeumannModel.Locks.WaitLemmas
 /-
   C12 — property theorems: 2PC key locks (one unexpired holder, conflicts refused, all-or-nothing,
   nothing left behind, index consistent) and the deadlock detector (soundness, completeness,
@@ -8,8 +9,14 @@ import NeumannModel.Locks.GraphLemmas
 
   Operation sequences: `run ops (Sys.init T)` folds `step` over any list of
   try_lock / release / release_by_handle / cleanup_expired / advance-clock / serialize-restore
-  operations; time only moves forward (`advance d`).  Every LockManager operation takes both
-  RwLocks for its whole body, so every interleaving of threads is one such sequence.
+  operations; time only moves forward (`advance d`).  Every mutating LockManager operation takes
+  both RwLocks (`locks`, then `tx_locks`) before its first read and drops them after its last write,
+  and the readers take them in the same order, so every interleaving of threads on the lock table is
+  one such sequence.  `crun ops (CSys.init T mx)` folds `cstep` over the coordinator-side operations
+  on the pair (lock table, wait-for graph): the `*_with_wait_*` variants, the plain ones, the raw
+  graph operations and the end-of-transaction sequence.  The WaitForGraph operations are NOT single
+  critical sections in the code (four RwLocks taken one after the other); the graph theorems are
+  about sequences of whole graph operations.
 -/
 namespace Neumann.Locks.Props
 open Neumann.Locks
@@ -189,51 +196,88 @@ example : ∃ c, tryLock (run (demoOps.take 1) (Sys.init 3)).t 0 2 [11, 12] = ((
   ⟨1, rfl⟩
 example : (run demoOps (Sys.init 3)).t.locks = [] ∧ (run demoOps (Sys.init 3)).t.nextHandle = 3 := by decide
 
-/-! ### lock manager + wait-for graph (`*_with_wait_*`): what happens when a transaction ends -/
+/-! ### lock manager + wait-for graph: what happens when a transaction ends -/
 
-/-- the full-strength statement the property asks for: once every lock handle of `tx` has been
-    released through `release_by_handle_with_wait_cleanup`, `tx` is neither waiter nor holder in
-    the wait-for graph.  It is **false of the current code** (see the witness below), so it is kept
-    as a `def` and not claimed. -/
-def EndedTxAbsentFromGraph : Prop :=
-  ∀ (t : LockTable) (g : WaitGraph) (h tx : Nat),
-    -- `h` is the only handle under which `tx` holds anything
-    t.locks.all (fun p => p.2.tx != tx || p.2.handle == h) = true →
-    aGet (releaseByHandleWait t g h).2.edges tx = none ∧
-    ∀ w, tx ∉ (aGet (releaseByHandleWait t g h).2.edges w).getD []
+/-- **`reverse_edges` is the transpose of `edges`** after every sequence of coordinator-side
+    operations (`try_lock_with_wait_tracking`, `release_by_handle_with_wait_cleanup`,
+    `cleanup_expired_with_wait_cleanup`, the plain lock operations, raw `add_wait` /
+    `remove_transaction` / `remove_wait`, end of transaction, clock, serialize-restore), including
+    the `max_edges_per_tx` early return of `add_wait`.  This is what makes `remove_transaction`
+    find every edge that mentions the transaction. -/
+theorem wait_graph_transpose_invariant (T mx : Nat) (ops : List COp) (w h : Nat) :
+    h ∈ outs (crun ops (CSys.init T mx)).g w ↔ w ∈ ins (crun ops (CSys.init T mx)).g h :=
+  (pairInv_run ops _ (pairInv_init T mx)).tr w h
 
-/-- witness (mirrors the failing input replayed on the real coordinator): T1 is granted key 7,
-    T3 is refused and waits for T1, T1's lock expires and T2 takes the key over, then T1 ends —
-    `release_by_handle_with_wait_cleanup` finds no lock with T1's handle, skips the graph cleanup,
-    and the edge T3 → T1 stays. -/
-theorem ended_tx_absent_from_graph_witness : ¬ EndedTxAbsentFromGraph := by
+/-- **An ended transaction is absent from the wait-for graph** (full strength: every operation
+    sequence, every transaction id, every list of recorded handles — none, stale, foreign or
+    valid).  After the end-of-transaction sequence of the current code (`endTx`: handle loop, then
+    unconditional `remove_transaction`) the transaction has no out-edges entry, no in-edges entry,
+    is in nobody's holder set and in nobody's waiter set, and has no wait-start / priority. -/
+theorem ended_tx_absent_from_graph (T mx : Nat) (ops : List COp) (tx : Nat) (handles : List Nat) :
+    let s := crun (ops ++ [COp.endTx tx handles]) (CSys.init T mx)
+    aGet s.g.edges tx = none ∧ aGet s.g.reverse tx = none ∧
+    (∀ w, tx ∉ outs s.g w) ∧ (∀ h, tx ∉ ins s.g h) ∧
+    aGet s.g.waitStarted tx = none ∧ aGet s.g.priorities tx = none := by
+  have hi := pairInv_run ops _ (pairInv_init T mx)
+  rw [show crun (ops ++ [COp.endTx tx handles]) (CSys.init T mx)
+      = cstep (crun ops (CSys.init T mx)) (COp.endTx tx handles) by simp [crun]]
+  generalize crun ops (CSys.init T mx) = s at hi ⊢
+  have hr := releaseHandles_inv handles s.t s.g hi.nd hi.nd2 hi.tr
+  exact removeTransaction_absent _ tx hr.2.2
+
+/-- …and none of the locks it was granted remains: after the end-of-transaction sequence no lock
+    carries any of the released handles (every operation sequence, every handle list). -/
+theorem ended_tx_holds_no_released_handle (T mx : Nat) (ops : List COp) (tx : Nat) (handles : List Nat) :
+    let s := crun (ops ++ [COp.endTx tx handles]) (CSys.init T mx)
+    ∀ k l, aGet s.t.locks k = some l → l.handle ∉ handles := by
+  have hi := pairInv_run ops _ (pairInv_init T mx)
+  rw [show crun (ops ++ [COp.endTx tx handles]) (CSys.init T mx)
+      = cstep (crun ops (CSys.init T mx)) (COp.endTx tx handles) by simp [crun]]
+  generalize crun ops (CSys.init T mx) = s at hi ⊢
+  intro _ k l hl
+  exact (releaseHandles_locks handles s.t s.g hi.nd hi.nd2 k l hl).2
+
+/-- the graph-level core, for any graph whose reverse index is the transpose of its edges:
+    `remove_transaction tx` erases `tx` on both sides and keeps every edge between other
+    transactions -/
+theorem remove_transaction_exact (g : WaitGraph) (tx : Nat) (hT : Transpose g) (a b : Nat) :
+    (b ∈ outs (removeTransaction g tx) a ↔ b ∈ outs g a ∧ a ≠ tx ∧ b ≠ tx) ∧
+    (a ∈ ins (removeTransaction g tx) b ↔ a ∈ ins g b ∧ a ≠ tx ∧ b ≠ tx) :=
+  ⟨mem_outs_removeTransaction g tx a b hT, mem_ins_removeTransaction g tx a b hT⟩
+
+-- non-vacuity: T1 holds key 7, T3 waits for it, the lock expires, T2 takes over, T4 waits for T2,
+-- T1 ends with its (now stale) handle 0: before the end T1 is a holder in the graph, afterwards it
+-- is gone and the unrelated edge T4 → T2 is still there
+def endOps : List COp :=
+  [.lockW 1 [7] none, .lockW 3 [7] (some 2), .advance 10, .lockW 2 [7] none, .lockW 4 [7] none]
+
+example : outs (crun endOps (CSys.init 3 0)).g 3 = [1] ∧ ins (crun endOps (CSys.init 3 0)).g 1 = [3] := by decide
+example : outs (crun (endOps ++ [.endTx 1 [0]]) (CSys.init 3 0)).g 3 = [] ∧
+    outs (crun (endOps ++ [.endTx 1 [0]]) (CSys.init 3 0)).g 4 = [2] := by decide
+example : Transpose (WaitGraph.empty 0) := transpose_empty 0
+
+/-- the same statement about the PRE-FIX end-of-transaction sequence (`endTxOld`: handle loop only,
+    the code before /repo db804a9a).  It is false; kept as a `def`, refuted below. -/
+def EndedTxAbsentFromGraphOld : Prop :=
+  ∀ (T mx : Nat) (ops : List COp) (tx : Nat) (handles : List Nat),
+    let s := crun (ops ++ [COp.endTxOld tx handles]) (CSys.init T mx)
+    aGet s.g.edges tx = none ∧ ∀ w, tx ∉ outs s.g w
+
+/-- regression witness for the fixed finding `DistributedTxCoordinator.abort/ended_waiter_stays_in_wait_graph`
+    (both forms replayed on the real coordinator before the fix):
+    (a) T1 is granted key 7, T2 is refused and waits for T1, T2 aborts — it has no handle, the loop
+        is empty, T2 stays a waiter;
+    (b) T1 is granted key 7, T3 waits for T1, T1's lock expires and T2 takes the key over, T1
+        commits — `release_by_handle_with_wait_cleanup` finds no lock with T1's handle, skips the
+        graph cleanup, and T3 → T1 stays. -/
+theorem ended_tx_absent_from_graph_witness :
+    ¬ EndedTxAbsentFromGraphOld ∧
+    outs (crun ([.lockW 1 [7] none, .lockW 3 [7] none, .advance 10, .lockW 2 [7] none] ++ [COp.endTxOld 1 [0]])
+      (CSys.init 3 0)).g 3 = [1] := by
+  refine ⟨?_, by decide⟩
   intro h
-  let s1 := tryLockWait (LockTable.empty 3) (WaitGraph.empty 0) 0 0 1 [7] none
-  let s2 := tryLockWait s1.1 s1.2.1 0 0 3 [7] none
-  let s3 := tryLockWait s2.1 s2.2.1 10 10 2 [7] none
-  have := (h s3.1 s3.2.1 0 1 (by decide)).2 3
+  have := (h 3 0 [.lockW 1 [7] none, .lockW 2 [7] none] 2 []).1
   exact absurd this (by decide)
-
-/-- what does hold (`_partial`: only when the release still *finds* a lock carrying the handle, and
-    only the waiter side — the missing part is exactly the witness above): the transaction that
-    owned the found lock loses its out-edges, wait-start and priority. -/
-theorem ended_tx_cleanup_partial (t : LockTable) (g : WaitGraph) (h k : Nat) (l : KeyLock)
-    (hl : (k, l) ∈ t.locks) (hh : l.handle = h)
-    (hsame : ∀ p ∈ t.locks, p.2.handle = h → p.2.tx = l.tx) :
-    aGet (releaseByHandleWait t g h).2.edges l.tx = none ∧
-    aGet (releaseByHandleWait t g h).2.waitStarted l.tx = none := by
-  have hin : l.tx ∈ (t.locks.filter (fun p => p.2.handle == h)).map (·.2.tx) :=
-    List.mem_map.mpr ⟨(k, l), List.mem_filter.mpr ⟨hl, by simp [hh]⟩, rfl⟩
-  have hfound : ((t.locks.filter (fun p => p.2.handle == h)).map (·.2.tx)).getLast? = some l.tx := by
-    cases hlast : ((t.locks.filter (fun p => p.2.handle == h)).map (·.2.tx)).getLast? with
-    | none => rw [List.getLast?_eq_none_iff] at hlast; rw [hlast] at hin; simp at hin
-    | some tx =>
-      obtain ⟨p, hp, e⟩ := List.mem_map.mp (List.mem_of_getLast? hlast)
-      have hp' := List.mem_filter.mp hp
-      rw [← e, hsame p hp'.1 (by simpa using hp'.2)]
-  unfold releaseByHandleWait
-  simp only [hfound]
-  exact ⟨(removeTransaction_waiter_gone g l.tx).1, (removeTransaction_waiter_gone g l.tx).2.1⟩
 
 /-! ### wait-for graph and deadlock detection -/
 
